@@ -218,7 +218,7 @@ CONTROLS = [
         (L, "(([uU]ll)|([uU]LL)|(ll[uU]?)|(LL[uU]?)|([uU][lL])|([lL][uU]?)|[uU])?", "(([uU]ll)|([uU]LL)|(ll[uU]?)|(LL[uU]?)|([lL][uU]?)|[uU])?")),
     pos("digit separator dropped from hex digits", ["C08"], ["R8.8"],
         (L, '''hex_digits = "[0-9a-fA-F']+"''', '''hex_digits = "[0-9a-fA-F]+"''')),
-    pos("keyword removed from the set", ["C02"], ["R2.5"],
+    pos("keyword removed from the set", ["C01", "C02"], ["R1.8", "R2.5"],
         (L, '''        "wchar_t",
         "while",''', '''        "while",''')),
     pos("rule swallows text", ["C08"], ["R8.1"],
@@ -357,4 +357,333 @@ CONTROLS = [
     neg("simple: payload appended through a local",
         (S, '''        state.user_data.functions.append(fn)''', '''        scope = state.user_data
         scope.functions.append(fn)''')),
+]
+
+
+# ---------------------------------------------------------------------------------------------
+# second batch: controls for C01-C03 and C09-C20
+
+CONTROLS += [
+    # ------------------------------------------------------------------ C01
+    pos("fold/emit: callback given the wrong payload class", ["C01"], ["R1.3"],
+        (P, '''            typedef = Typedef(dtype, name, self._current_access)
+            self.visitor.on_typedef(state, typedef)''', '''            typedef = UsingAlias(name, dtype, None, self._current_access)
+            self.visitor.on_typedef(state, typedef)''')),
+    pos("vocab: handler dropped from the dispatch table", ["C01"], ["R1.1"],
+        (P, '''            "static_assert": self._consume_static_assert,
+''', '')),
+    pos("vocab: token type misspelt", ["C01"], ["R1.8"],
+        (P, '''        tok = self.lex.token_if("&", "DBL_AMP")''', '''        tok = self.lex.token_if("&", "DBL_AND")''')),
+    pos("conformance: keyword added to _type_kwd_both that the dataclasses lack", ["C01"], ["R1.5"],
+        (P, '''    _type_kwd_both = {"const", "constexpr", "extern", "inline", "static"}''', '''    _type_kwd_both = {"const", "constexpr", "extern", "inline", "static", "register"}''')),
+    pos("param_idx counts the wrong list", ["C01"], ["R1.6"],
+        (P, "                        param_idx=len(params) - 1,", "                        param_idx=len(at_params),")),
+    # ------------------------------------------------------------------ C02
+    pos("swap: rebinding moved above the try", ["C02"], ["R2.1", "R2.2"],
+        (P, '''                old_lex = self.lex
+                try:
+                    # set up a temporary token stream with the tokens we need to parse
+                    tmp_lex = lexer.BoundedTokenStream(raw_toks)
+                    self.lex = tmp_lex
+''', '''                old_lex = self.lex
+                tmp_lex = lexer.BoundedTokenStream(raw_toks)
+                self.lex = tmp_lex
+                try:
+''')),
+    pos("types: pointer-to-reference guard deleted", ["C02"], ["R2.3"],
+        (P, '''                if isinstance(dtype, (Reference, MoveReference)):
+                    raise self._parse_error(tok)
+                dtype = Pointer(dtype)''', '''                dtype = Pointer(dtype)''')),
+    pos("types: array-of-references guard deleted", ["C02"], ["R2.3"],
+        (P, '''        if isinstance(dtype, (Reference, MoveReference)):
+            raise CxxParseError("arrays of references are illegal", tok)
+''', '')),
+    pos("flags: has_trailing_return dropped at one sibling site", ["C02"], ["R2.4"],
+        (P, '''                return_type = self._parse_trailing_return_type(method.return_type)
+                method.has_trailing_return = True
+                method.return_type = return_type''', '''                return_type = self._parse_trailing_return_type(method.return_type)
+                method.return_type = return_type''')),
+    pos("keyword removed from the lexer set", ["C08", "C01"], ["R8", "R1.8"],
+        (L, '''        "wchar_t",
+        "while",''', '''        "while",''')),
+    pos("fundamental type dropped from the parser table", ["C02"], ["R2.5"],
+        (P, '''        "nullptr_t",
+        "wchar_t",
+        "void",''', '''        "nullptr_t",
+        "void",''')),
+    pos("trial parse: whole-argument condition dropped", ["C02"], ["R2.2"],
+        (P, '''                    else:
+                        if tmp_lex.has_tokens():
+                            dtype = None
+''', '')),
+    # ------------------------------------------------------------------ C03
+    pos("access: default swapped", ["C03"], ["R3.1"],
+        (P, '''default_access = "private" if typename.classkey == "class" else "public"''', '''default_access = "public" if typename.classkey == "class" else "private"''')),
+    pos("access: union treated like class", ["C03"], ["R3.1"],
+        (P, '''default_access = "private" if typename.classkey == "class" else "public"''', '''default_access = "public" if typename.classkey == "struct" else "private"''')),
+    pos("access: ClassDecl built after the push", ["C03"], ["R3.3"],
+        (P, '''        clsdecl = ClassDecl(
+            typename, bases, template, explicit, final, doxygen, self._current_access
+        )
+        state: ClassBlockState = ClassBlockState(
+            self.state, location, clsdecl, default_access, typedef, mods
+        )
+        self._setup_state(state)
+''', '''        clsdecl = ClassDecl(typename, bases, template, explicit, final, doxygen)
+        state: ClassBlockState = ClassBlockState(
+            self.state, location, clsdecl, default_access, typedef, mods
+        )
+        self._setup_state(state)
+        clsdecl.access = self._current_access
+''')),
+    pos("access: one member kind left at its default", ["C03"], ["R3.3"],
+        (P, '''        decl = UsingDecl(typename, self._current_access, doxygen)''', '''        decl = UsingDecl(typename, doxygen=doxygen)''')),
+    pos("qualifier stored in the wrong field", ["C03"], ["R3.5"],
+        (P, '''                elif tok_value == "delete":
+                    method.deleted = True
+                elif tok_value == "default":
+                    method.default = True''', '''                elif tok_value == "delete":
+                    method.default = True
+                elif tok_value == "default":
+                    method.deleted = True''')),
+    pos("anonymous id not incremented by one", ["C03"], ["R3.6"],
+        (P, "                self.anon_id += 1", "                self.anon_id += 2")),
+    # ------------------------------------------------------------------ C09
+    pos("discard set loses a member", ["C09"], ["R9.2"],
+        (L, '''    _discard_types = {
+        "NEWLINE",
+        "COMMENT_SINGLELINE",
+        "COMMENT_MULTILINE",
+        "WHITESPACE",
+    }''', '''    _discard_types = {
+        "NEWLINE",
+        "COMMENT_SINGLELINE",
+        "WHITESPACE",
+    }''')),
+    pos("raw buffer peeked from the parser", ["C09"], ["R9.1"],
+        (P, '''        if self.lex.token_if("ARROW"):
+            return_type = self._parse_trailing_return_type(fn.return_type)''', '''        if self.lex.tokbuf and self.lex.tokbuf[0].type == "ARROW":
+            self.lex.tokbuf.popleft()
+            return_type = self._parse_trailing_return_type(fn.return_type)''')),
+    pos("accessor forgets to filter", ["C09"], ["R9.2"],
+        (L, '''    def token_if_val(self, *vals: str) -> typing.Optional[LexToken]:
+        tok = self.token_eof_ok()
+        if tok is None:
+            return None''', '''    def token_if_val(self, *vals: str) -> typing.Optional[LexToken]:
+        tok = self.tokbuf.popleft() if self.tokbuf else self.token_eof_ok()
+        if tok is None:
+            return None''')),
+    pos("splice guard off by one again", ["C09"], ["R9.6"],
+        (L, '''if len(tokbuf) >= 2 and tokbuf[-2].type == "\\\\":''', '''if len(tokbuf) > 2 and tokbuf[-2].type == "\\\\":''')),
+    pos("CRLF normalisation removed", ["C09"], ["R9.5"],
+        (L, '''self._lex.input(content.replace("\\r\\n", "\\n"))''', '''self._lex.input(content)''')),
+    pos("pragma scanner ignores comment line ends", ["C09"], ["R9.3"],
+        (L, '''                if tok.value.endswith("\\n"):
+                    return tok
+''', '')),
+    # ------------------------------------------------------------------ C10
+    pos("location store deleted in _parse_field", ["C10"], ["R10.4"],
+        (P, '''        state = self.state
+        state.location = location
+        if isinstance(state, ClassBlockState):
+            is_class_block = True''', '''        state = self.state
+        if isinstance(state, ClassBlockState):
+            is_class_block = True''')),
+    pos("#line offset off by one", ["C10"], ["R10.3"],
+        (L, "self.line_offset = 1 + self.lex.lineno - int(m.group(2))", "self.line_offset = self.lex.lineno - int(m.group(2))")),
+    pos("#line takes the wrong group for the file", ["C10"], ["R10.3"],
+        (L, "self.filename = m.group(3)", "self.filename = m.group(1)")),
+    pos("current_location forgets the offset", ["C10"], ["R10.2"],
+        (L, "return Location(self.filename, self.lex.lineno - self.line_offset)", "return Location(self.filename, self.lex.lineno)")),
+    # ------------------------------------------------------------------ C11
+    pos("doxygen = None deleted in the declarator loop", ["C11"], ["R11.1"],
+        (P, '''            # Unset the doxygen, location
+            doxygen = None
+''', '''            # Unset the location
+''')),
+    pos("access specifier keeps the pending doc text", ["C11"], ["R11.2"],
+        (P, '''_keep_doxygen = {"__declspec", "alignas", "__attribute__", "DBL_LBRACKET"}''', '''_keep_doxygen = {"__declspec", "alignas", "__attribute__", "DBL_LBRACKET", "public"}''')),
+    pos("trailing form used unguarded", ["C11"], ["R11.3"],
+        (P, '''        if doxygen is None:
+            # try checking after the var
+            doxygen = self.lex.get_doxygen_after()''', '''        trailing = self.lex.get_doxygen_after()
+        if doxygen is None:
+            doxygen = trailing''')),
+    pos("doc text handed to two constructions", ["C11"], ["R11.1"],
+        (P, '''        ns = NamespaceDecl(names, inline, doxygen)
+''', '''        ns = NamespaceDecl(names, inline, doxygen)
+        if ns_alias is None:
+            self.visitor.on_template_inst(state, TemplateInst(PQName([]), False, doxygen))
+''')),
+    pos("doc prefixes widened", ["C11"], ["R11.4"],
+        (L, '''if text.startswith("///") or text.startswith("//!"):''', '''if text.startswith("//"):''')),
+    pos("accumulator rebound for block comments again", ["C11"], ["R11.4"],
+        (L, "comment_lines.extend(text.splitlines())", "comment_lines = text.splitlines()")),
+    # ------------------------------------------------------------------ C12
+    pos("template header parked on the parser", ["C12"], ["R12.1"],
+        (P, '''        template = self._parse_template_decl()
+
+        # Check for multiple specializations''', '''        template = self._parse_template_decl()
+        self._last_template = template
+
+        # Check for multiple specializations''')),
+    pos("re-opened namespace gets a fresh scope", ["C12", "C01"], ["R12.4", "R1.7"],
+        (S, '''            ns = parent_ns.namespaces.get(name)
+            if ns is None:
+                ns = NamespaceScope(name)
+                parent_ns.namespaces[name] = ns''', '''            ns = NamespaceScope(name)
+            parent_ns.namespaces[name] = ns''')),
+    pos("module-level counter", ["C12", "C15"], ["R12.6", "R15.1"],
+        (P, '''LexTokenList = typing.List[LexToken]''', '''LexTokenList = typing.List[LexToken]
+_anon = [0]'''), (P, '''                self.anon_id += 1
+                segments.append(AnonymousName(self.anon_id))''', '''                _anon[0] += 1
+                self.anon_id += 1
+                segments.append(AnonymousName(_anon[0]))''')),
+    # ------------------------------------------------------------------ C13
+    pos("counting loop starts at 0", ["C13"], ["R13.2"],
+        (P, '''        level = 1
+        get_token = self.lex.token''', '''        level = 0
+        get_token = self.lex.token''')),
+    pos("discard pair mismatched", ["C13"], ["R13.1"],
+        (P, '''        self._next_token_must_be("(")
+        self._discard_contents("(", ")")''', '''        self._next_token_must_be("(")
+        self._discard_contents("{", ")")''')),
+    pos("attribute consumer passes one opener only", ["C13"], ["R13.3"],
+        (P, "        self._consume_balanced_tokens(tok1, tok2)", "        self._consume_balanced_tokens(tok1)")),
+    pos("opener no longer pushes its closer", ["C13", "C14"], ["R13.4", "R14"],
+        (P, '''            next_end = token_map.get(tok.type)
+            if next_end:
+                match_stack.append(next_end)''', '''            next_end = token_map.get(tok.type)
+            if next_end and next_end != ">":
+                match_stack.append(next_end)''')),
+    # ------------------------------------------------------------------ C14
+    pos("collector drops a token", ["C14"], ["R14.1"],
+        (P, '''            if tok.type in self._balanced_token_map:
+                rtoks.extend(self._consume_balanced_tokens(tok))
+            else:
+                rtoks.append(tok)
+
+        return rtoks''', '''            if tok.type in self._balanced_token_map:
+                rtoks.extend(self._consume_balanced_tokens(tok))
+            elif tok.type != "WHITESPACE":
+                if tok.value != "typename":
+                    rtoks.append(tok)
+
+        return rtoks''')),
+    pos("decltype keeps its parentheses", ["C14"], ["R14.2"],
+        (P, "        toks = self._consume_balanced_tokens(tok)[1:-1]\n        return DecltypeSpecifier(", "        toks = self._consume_balanced_tokens(tok)\n        return DecltypeSpecifier(")),
+    pos("brace initialiser loses its braces", ["C14"], ["R14.2"],
+        (P, "                default = self._create_value(self._consume_balanced_tokens(tok))", "                default = self._create_value(self._consume_balanced_tokens(tok)[1:-1])")),
+    pos("enumerator terminators changed", ["C14"], ["R14.3"],
+        (P, '''value = self._create_value(self._consume_value_until([], ",", "}"))''', '''value = self._create_value(self._consume_value_until([], ",", ";"))''')),
+    pos("_create_value filters tokens", ["C14"], ["R14.4"],
+        (P, "        return Value([Token(tok.value, tok.type) for tok in toks])", "        return Value([Token(tok.value, tok.type) for tok in toks if tok.type != \"typename\"])")),
+    # ------------------------------------------------------------------ C15
+    pos("clone dropped in PlyLexer.__new__", ["C15"], ["R15.2"],
+        (L, '''        inst.lex = cls._lexer.clone(inst)
+        inst.lex.begin("INITIAL")''', '''        inst.lex = cls._lexer
+        inst.lex.begin("INITIAL")''')),
+    pos("placeholder token mutated", ["C15"], ["R15.5", "R15.1"],
+        (P, '''                raw_toks.append(PhonyEnding)
+''', '''                PhonyEnding.location = raw_toks[0].location
+                raw_toks.append(PhonyEnding)
+''')),
+    # ------------------------------------------------------------------ C17
+    pos("pointer grouping branch deleted", ["C17"], ["R17.2"],
+        (TY, '''        ptr_to = self.ptr_to
+        if isinstance(ptr_to, (Array, FunctionType)):
+            return ptr_to.format_decl(f"(*{c}{v})")
+        else:
+            return f"{ptr_to.format()}*{c}{v}"''', '''        ptr_to = self.ptr_to
+        return f"{ptr_to.format()}*{c}{v}"''')),
+    pos("volatile dropped from Type.format", ["C17"], ["R17.1"],
+        (TY, '''        return f"{c}{v}{self.typename.format()}"
+
+    def format_decl(self, name: str):''', '''        return f"{c}{self.typename.format()}"
+
+    def format_decl(self, name: str):''')),
+    pos("array appends its own dimension after the element again", ["C17"], ["R17.3"],
+        (TY, '''        return self.array_of.format_decl(f"{name}[{s}]")''', '''        return f"{self.array_of.format()} {name}[{s}]"''')),
+    # ------------------------------------------------------------------ C18
+    pos("option consulted at a second site", ["C18"], ["R18.1"],
+        (P, '''        param = cls(type=dtype, name=param_name, default=default, param_pack=param_pack)''', '''        if not self.options.convert_void_to_zero_params and param_name == "void":
+            param_name = None
+        param = cls(type=dtype, name=param_name, default=default, param_pack=param_pack)''')),
+    pos("verbose-only side effect", ["C18"], ["R18.2"],
+        (P, '''        self.debug_print("discarding ctor intializer")''', '''        self.debug_print("discarding ctor intializer %s", self.lex.token_peek_if(":"))''')),
+    pos("hook called with a transformed argument", ["C18"], ["R18.3"],
+        (P, "            content = options.preprocessor(filename, content)", "            content = options.preprocessor(str(filename), content)")),
+    # ------------------------------------------------------------------ C19
+    pos("filter compares with `in`", ["C19"], ["R19.1"],
+        (PP, "            keep = line.endswith(line_ending)", "            keep = fname in line")),
+    pos("filter gating inverted", ["C19"], ["R19.3"],
+        (PP, '''        if not retain_all_content:
+            result = _gcc_filter(filename, io.StringIO(result))''', '''        if retain_all_content:
+            result = _gcc_filter(filename, io.StringIO(result))''')),
+    # ------------------------------------------------------------------ C20
+    pos("fsdecode dropped", ["C20"], ["R20.2"],
+        (S, "    filename = os.fsdecode(filename)\n", "")),
+    pos("json dump of something else", ["C20"], ["R20.4"],
+        (("dump.py"), '''        ddata = dataclasses.asdict(data)
+        json.dump(ddata, sys.stdout, indent=2)''', '''        ddata = data.__dict__
+        json.dump(ddata, sys.stdout, indent=2)''')),
+    pos("encoding dead again", ["C20"], ["R20.1"],
+        (S, "    parser = CxxParser(filename, content, visitor, options, encoding)", "    parser = CxxParser(filename, content, visitor, options)")),
+    # ================================================================== more negative controls
+    neg("flag variable <-> inline isinstance test",
+        (P, '''        is_class_block = isinstance(state, ClassBlockState)
+
+        params, vararg, at_params = self._parse_parameters(True)''', '''        is_class_block = isinstance(state, ClassBlockState)
+        in_class = is_class_block
+
+        params, vararg, at_params = self._parse_parameters(True)''')),
+    neg("early return instead of else branch in _parse_inline",
+        (P, '''        itok = self.lex.token_if("namespace")
+        if itok:
+            self._parse_namespace(itok, doxygen, inline=True)
+        else:
+            self._parse_declarations(tok, doxygen)''', '''        itok = self.lex.token_if("namespace")
+        if itok:
+            self._parse_namespace(itok, doxygen, inline=True)
+            return
+        self._parse_declarations(tok, doxygen)''')),
+    neg("set of types instead of tuple in a dispatch comparison",
+        (P, '''        if tok_type not in (":", "{"):
+            raise self._parse_error(tok)''', '''        if tok_type not in {":", "{"}:
+            raise self._parse_error(tok)''')),
+    neg("location local renamed in _parse_namespace",
+        (P, '''        names = []
+        location = tok.location
+        ns_alias: typing.Union[typing.Literal[False], LexToken] = False''', '''        names = []
+        where = tok.location
+        location = where
+        ns_alias: typing.Union[typing.Literal[False], LexToken] = False''')),
+    neg("docstring and comment edits",
+        (P, '''        # Check for an abbreviated template return type, promote it''', '''        # Check for an abbreviated template return type and promote it (C++20)''')),
+    neg("types: c/v computed through a helper that keeps both",
+        (TY, '''    def format(self) -> str:
+        c = "const " if self.const else ""
+        v = "volatile " if self.volatile else ""
+        return f"{c}{v}{self.typename.format()}"''', '''    def _cv(self) -> str:
+        c = "const " if self.const else ""
+        v = "volatile " if self.volatile else ""
+        return c + v
+
+    def format(self) -> str:
+        return f"{self._cv()}{self.typename.format()}"''')),
+    neg("simple: extern block scope through a local",
+        (S, '''        state.user_data = state.parent.user_data
+        return None''', '''        state.user_data = state.parent.user_data
+        return None  # transparent''')),
+    neg("preprocessor: needle built by concatenation",
+        (PP, """    line_ending = f'"{fname}"\\n'""", """    line_ending = '"' + fname + '"\\n'""")),
+    neg("lexer: keyword set extended with an expression-only keyword already known",
+        (L, '''    def t_NAME(self, t: LexToken) -> LexToken:
+        if t.value in self.keywords:
+            t.type = t.value
+        return t''', '''    def t_NAME(self, t: LexToken) -> LexToken:
+        value = t.value
+        if value in self.keywords:
+            t.type = t.value
+        return t''')),
 ]
